@@ -103,6 +103,9 @@ Call(ev) ==
                        [exp |-> exp[s], obs |-> obs[s]]) : s \in wrong}
       vRet == IF ~panicked /\ HasResult(ev) /\ inputsOK /\ ~ResultOK(U, content, ev, ev.ret)
               THEN {V(ev, "result", 0, IF SerialClauses(ev, ev.ret) # {} THEN SerialClauses(ev, ev.ret) ELSE ev.ret)} ELSE {}
+      \* a stream the library itself wrote from a valid bitmap must be read back by every entry point (C18 / C05 round trip)
+      vValid == IF ev.op = "Decode" /\ "mustok" \in DOMAIN ev.ret /\ ev.ret.mustok /\ ev.ret.outcome = "err"
+                THEN {V(ev, "result", 0, <<"valid-stream-rejected", ev.ret.entry>>)} ELSE {}
       vIter == IF ~panicked /\ IterHasResult(ev) /\ inputsOK /\ IterClauses(U, content, iters, ev, ev.ret) # {}
                THEN {V(ev, "iteration", 0, IterClauses(U, content, iters, ev, ev.ret))} ELSE {}
       vList == IF ~panicked /\ HasListing(ev) /\ inputsOK /\ ToSet(ev.arr) # ListingOf(U, content, ev)
@@ -124,7 +127,7 @@ Call(ev) ==
      /\ bad' = (bad \ {ev.post[i].s : i \in DOMAIN ev.post}) \cup nowbad
      /\ U' = U
      /\ iters' = IF ev.op \in ItOps THEN IterStep(U, content, iters, ev) ELSE iters
-     /\ Record(vPanic \cup vBad \cup vContent \cup vRet \cup vList \cup vAux \cup vArg \cup vBuf \cup vRep \cup vShare \cup vAlias \cup vProbe \cup vGor \cup vIter)
+     /\ Record(vPanic \cup vBad \cup vContent \cup vRet \cup vList \cup vAux \cup vArg \cup vBuf \cup vRep \cup vShare \cup vAlias \cup vProbe \cup vGor \cup vIter \cup vValid)
 
 Next ==
   /\ l <= Len(Trace)
